@@ -127,7 +127,7 @@ CHECKS = {
              'Stats.Param evaluated in Coq on the valid values per internal tile of synthetic parameter images (random float32, per-band '
              'masks, 3 models, thresholds incl. None, 4 tile layouts) and of images written by real fusions, against ParamStats.stats '
              '(1e-9; min/max exact), an exact-fraction oracle and single- vs multi-threaded runs.',
-        note='hypothesis: valid pixels of every band lie inside the bounding window of band 1 (true for fuse output). D6 fixed (df78f2a).',
+        note='hypothesis: valid pixels of every band lie inside the bounding window of band 1 (true for fuse output). D6 fixed (df78f2a), D17 (NaN std of a constant band) fixed (d2841f6).',
         technique='Coq proof (fold invariants for min/max, sum algebra) + in-Coq correspondence with ParamStats on real files',
         design='5/C12'),
     'C13': dict(
@@ -218,6 +218,20 @@ CHECKS = {
         design='5/C19'),
 }
 
+# what is regenerated from /repo's source on every run for a property (translate/formulas.py, translate/blocks.py) and proved equal to the model
+REGEN = {
+    'C01': 'every assignment / np.divide of _fit_gain_offset, _r2_array, _fit_gain, _fit_gain_blk_offset (gen/Formulas.v) is proved equal, by ring, to Kernel.Fit (C01_source_arithmetic_is_the_model, C01_source_r2_shape, C01_source_block_normalisation).',
+    'C02': 'KernelModel.apply (gen/Formulas.v) is gain * source + offset (C02_source_apply_is_gain_src_plus_offset).',
+    'C05': 'the overlap fuse hands to block_pairs (gen/Blocks.v) covers the kernel half-size + 1 (C05_source_overlap_covers_kernel).',
+    'C06': 'the integer arithmetic of block_pairs (range of corners, in / out corners, loop order; gen/Blocks.v) is Grid.Window (C06_source_block_arithmetic_is_the_model).',
+    'C11': 'the arithmetic of get_band_stats (gen/Formulas.v) is Stats.Compare.band_stats (C11_source_arithmetic_is_the_model).',
+    'C12': 'the arithmetic of _get_image_stats (gen/Formulas.v), incl. the variance clamp, is Stats.Param.band_stats (C12_source_arithmetic_is_the_model).',
+    'C13': 'the structure of _convert_array_dtype (round, clip, cast, re-mask; gen/Blocks.v) is the one Enc.Dtype models (C13_source_convert_structure).',
+    'C14': 'band index arithmetic, label loop, validator suffixes and the two windowed writes of _process_block (gen/Blocks.v) are Grid.Layout (C14_source_layout).',
+    'C17': 'the overlap with partial masking and the structure of _full_coverage_mask (gen/Blocks.v) (C17_source_overlap_with_partial_masking, C17_source_partial_mask_structure).',
+    'C20': 'bounded_window_slices (gen/Blocks.v) is Grid.Window.bounded_axis on each axis (C20_source_bounded_window_slices).',
+}
+
 NOT_YET = 'check not built yet in this revision (planned: see DESIGN.md section 5)'
 
 
@@ -227,7 +241,10 @@ def main():
     for pid in ids:
         if pid not in CHECKS:
             continue
-        c = CHECKS[pid]
+        c = dict(CHECKS[pid])
+        if pid in REGEN:
+            c['text'] += ' Regenerated tie: ' + REGEN[pid]
+            c['technique'] += ' + source arithmetic regenerated into Gallina on every run and proved equal to the model'
         checks.append(dict(
             property_id=pid,
             quick_cmd=f'./bin/check {pid} --tier quick',
